@@ -41,4 +41,5 @@ func checkC02(c *Ctx, r *Report) {
 		r.OK("W-NARROW", "scope", "", fmt.Sprintf("%d functions reachable from the Size/size/expectedSize methods of package mp4 examined for narrow products", len(sizeFns)))
 	}
 	ruleNarrowMul(c, r, "W-NARROW", func(f *ssa.Function) bool { return sizeFns[f] })
+	requireFixture(r, "W-NARROW", "TfrfData.size", func(fc *Ctx, s *Report) { ruleNarrowMul(fc, s, "W-NARROW", nil) })
 }
